@@ -128,6 +128,13 @@ func RandSkeleton(r *rand.Rand, o SkelOptions) *Grammar {
 		}
 		b.rule(item, b.word(), b.nt(x), semi)
 	})
+	stmtKinds = append(stmtKinds, func() { // statement that ends with a nullable nonterminal (trailing whitespace/comments matter for its range)
+		tail := b.nonterm(fmt.Sprintf("End%d", len(b.g.Nonterms)))
+		b.rule(tail, b.word(), id)
+		b.rule(tail)
+		b.rule(item, b.word(), id, b.nt(tail))
+		b.feature("trailing-nullable")
+	})
 	perm := r.Perm(len(stmtKinds))
 	nk := 2 + r.Intn(4)
 	for _, k := range perm[:nk] {
